@@ -17,8 +17,9 @@ RULE = ("corpus-derived structures (incl. 3SGB's insertion-coded residues, gener
         "negative, to a start at exactly 0, by multiples of 1000, beyond 999); strictly increasing renumbering; "
         "sequential renumbering that resolves insertion codes; introduction of insertion codes; exactly symmetric dimers "
         "(two-fold axis / mirror plane through the origin, one ionizable group touching its image); two independent "
-        "chains in contact through one polar side-chain atom each; whole reference proteins with threaded clusters. "
-        "Non-trivial: the "
+        "chains in contact through one polar side-chain atom each; whole reference proteins with threaded clusters; "
+        "two-conformation inputs (one residue with alternate locations) of several chains with overlapping residue "
+        "numbers. Non-trivial: the "
         "relabelling changed the text and >= 2 reported groups have determinants; distinct by hash of (input, "
         "relabelled input).")
 ASSUMPTIONS = [
@@ -219,6 +220,31 @@ def run_shard(ctx):
         ctx.account(case, v, info)
 
     ctx.hypothesis_stage("relabel", cases(), body, 2500 if quick else 40000)
+
+    # two conformations (one residue with alternate locations) in structures of several chains whose residue numbers
+    # overlap: completing one conformation from the other goes by residue labels, which must only identify
+    @st.composite
+    def alt_cases(draw):
+        s0 = draw(gen.structures(max_res=24 if quick else 50, multi_chain=True, distinct_chain_ids=True,
+                                 allow_icode=False, allow_hetero=draw(st.booleans())))
+        ents, changed = gen.with_alternate_location(s0.entries, draw(st.integers(0, 60)),
+                                                    renumber_from=draw(st.sampled_from([None, 1, 1, 5, -3])))
+        s = gen.Structure(ents, s0.labels, s0.info)
+        entries, kinds, ok = draw(relabel(s))
+        return s, pdbio.write(entries), kinds, ok and changed
+
+    def alt_body(t):
+        s, rel, kinds, ok = t
+        if not ok:
+            ctx.labels["skipped:duplicate-residue-id"] += 1
+            return
+        case = {"pdb": s.text, "relabelled": rel, "kinds": ["relabel:" + k for k in kinds], "optargs": []}
+        v, info = check_case(case)
+        info["labels"] = info.get("labels", []) + ["alternate-locations"]
+        info["sample"] = {"structure": s.summary(), "relabelling": kinds, "relabelled_head": rel[:243]}
+        ctx.account(case, v, info)
+
+    ctx.hypothesis_stage("relabel-two-conformations", alt_cases(), alt_body, 320 if quick else 6000)
 
     # whole reference proteins (several chains, real interfaces) with threaded clusters: inter-chain pairs of every kind
     @st.composite
